@@ -40,14 +40,15 @@ func runCell(c string) (out string) {
 	if (len(f) == 7 || len(f) == 8) && f[0] == "engine" {
 		return runEngineCell(f)
 	}
-	if len(f) < 8 || len(f) > 10 || f[0] != "cell" {
+	sized := len(f) == 13 && f[0] == "sized"
+	if !sized && (len(f) < 8 || len(f) > 10 || f[0] != "cell") {
 		return "unknown-case"
 	}
 	eof, fsKind := 0, a08.FsMem
 	if len(f) >= 9 {
 		eof, _ = strconv.Atoi(f[8])
 	}
-	if len(f) == 10 {
+	if len(f) >= 10 {
 		fsKind, _ = strconv.Atoi(f[9])
 	}
 	kind := f[1]
@@ -60,7 +61,26 @@ func runCell(c string) (out string) {
 	if f[7] != "-" && !pre {
 		cancel, _ = strconv.Atoi(f[7])
 	}
-	b, err := a08.BuildFS(kind, preload, limit, passes, a08.DefaultEntries(n), nil, eof, fsKind)
+	es := a08.DefaultEntries(n)
+	var opts a08.Opts
+	if sized {
+		// <maxammosize> <pads> <sizes>: the entries are padded as the case says; the sizes the model is
+		// given must be the sizes of the lines as rendered
+		opts.MaxAmmoSize, _ = strconv.Atoi(f[10])
+		pads, sizes := strings.Split(f[11], ","), strings.Split(f[12], ",")
+		if len(pads) != n || len(sizes) != n {
+			return "unknown-case"
+		}
+		for i := range es {
+			es[i].Pad, _ = strconv.Atoi(pads[i])
+		}
+		for i, sz := range a08.EntrySizes(kind, es) {
+			if strconv.Itoa(sz) != sizes[i] {
+				return "unknown-case"
+			}
+		}
+	}
+	b, err := a08.BuildFSOpt(kind, preload, limit, passes, es, nil, eof, fsKind, opts)
 	if err != nil {
 		return "0 - closed construct -" // the constructor refused the file: there is no Run and no sink
 	}
@@ -186,6 +206,7 @@ func gen(r *vh.Rand, tier string) []string {
 			}
 		}
 	}
+	out = append(out, genSized(r, tier)...)
 	// every provider under the real engine: instances see end of ammo, Engine.Run returns nil
 	for _, pc := range provCfgs() {
 		for _, lp := range [][2]int{{3, 0}, {0, 2}, {4, 3}, {7, 2}} {
@@ -215,6 +236,131 @@ func gen(r *vh.Rand, tier string) []string {
 			}
 		}
 		out = append(out, fmt.Sprintf("cell %s %d %d %d %d %d %s %d %d", pc.kind, pc.preload, limit, passes, n, r.Range(1, 4), cancel, r.Intn(a08.EOFLayouts), r.Intn(a08.FsKinds)))
+	}
+	return out
+}
+
+// sizedLine renders a `sized` case: entry i of the file is padded so that its longest line is target[i]
+// bytes long (0 = the natural size); the real sizes go into the line for the model.
+func sizedLine(kind string, preload, limit, passes, n, cons int, cancel string, eof, fs, maxsz int, target []int) string {
+	es := a08.DefaultEntries(n)
+	for i := range es {
+		if target[i] <= 0 {
+			continue
+		}
+		es[i].Pad = 1
+		base := a08.EntrySizes(kind, es[i:i+1])[0] - 1 // size with a pad of p bytes = base + p
+		es[i].Pad = target[i] - base
+		if es[i].Pad < 1 {
+			es[i].Pad = 0
+		}
+	}
+	sizes := a08.EntrySizes(kind, es)
+	ps, ss := make([]string, n), make([]string, n)
+	for i := range es {
+		ps[i], ss[i] = strconv.Itoa(es[i].Pad), strconv.Itoa(sizes[i])
+	}
+	return fmt.Sprintf("sized %s %d %d %d %d %d %s %d %d %d %s %s", kind, preload, limit, passes, n, cons, cancel, eof, fs, maxsz,
+		strings.Join(ps, ","), strings.Join(ss, ","))
+}
+
+// bufio.MaxScanTokenSize: the token limit of a line scanner that was not given a buffer
+const defaultToken = 64 * 1024
+
+// genSized: the SIZE of the entries and the `maxammosize` option as dimensions of a cell. Sizes are
+// chosen around the limits readers have: bufio's 4096-byte buffer, bufio.Scanner's 64 KiB default token
+// limit, the configured limit (one below = the largest entry the configuration accepts; at = the
+// smallest it refuses, grpc/json only: the other kinds have no limit that follows the configuration, and
+// a uri line stays below the 64 KiB a uri file may hold). The bounds always need the file to be
+// re-read or re-cycled (end of the first pass crossed), the large entry moves over the positions.
+func genSized(r *vh.Rand, tier string) []string {
+	var out []string
+	lps := [][2]int{{0, 2}, {5, 0}, {4, 3}, {3, 4}}
+	no := 0
+	for _, pc := range provCfgs() {
+		maxs := []int{0, 300, 100000}
+		if pc.kind == "grpcjson" {
+			maxs = []int{0, 300, 5000, 100000, 1 << 20}
+		}
+		if pc.kind == "decode" {
+			maxs = []int{0} // no such option
+		}
+		for _, mx := range maxs {
+			cap := mx
+			if cap == 0 {
+				cap = defaultToken
+			}
+			var classes []int
+			switch pc.kind {
+			case "grpcjson":
+				classes = []int{cap - 1, cap / 2, cap, cap + 100}
+				if cap > defaultToken {
+					classes = append(classes, defaultToken, 70000)
+				}
+			case "uri":
+				classes = []int{200, 5000, defaultToken - 10}
+			default:
+				classes = []int{200, 5000, 70000}
+			}
+			for ci, sz := range classes {
+				if tier != "thorough" && pc.kind != "grpcjson" && (ci+no)%2 == 1 {
+					no++
+					continue // quick: half of the classes per configuration, rotating
+				}
+				for li, lp := range lps {
+					if tier != "thorough" && (li+ci+no)%2 == 1 {
+						continue
+					}
+					n := 2 + (no+li)%2
+					target := make([]int, n)
+					target[(no+ci+li)%n] = sz
+					out = append(out, sizedLine(pc.kind, pc.preload, lp[0], lp[1], n, 1+2*((no+li)%2), "-", (no+li)%2, (no/2+li)%a08.FsKinds, mx, target))
+				}
+				no++
+			}
+		}
+	}
+	extra := 60
+	if tier == "thorough" {
+		extra = 1200
+	}
+	pcs := provCfgs()
+	for i := 0; i < extra; i++ {
+		pc := pcs[r.Intn(len(pcs))]
+		if r.Chance(1, 3) {
+			pc = provCfg{"grpcjson", 0}
+		}
+		n := r.Range(1, 5)
+		mx := r.PickInt([]int{0, 0, 300, 4096, 5000, 70000, 100000, 1 << 20})
+		if pc.kind == "decode" {
+			mx = 0
+		}
+		cap := mx
+		if cap == 0 {
+			cap = defaultToken
+		}
+		target := make([]int, n)
+		for j := range target {
+			switch {
+			case r.Chance(1, 2): // natural size
+			case pc.kind == "grpcjson":
+				target[j] = r.PickInt([]int{cap - 1, cap - 1, cap / 2, 200, 4096, cap, cap + 1})
+				if cap > defaultToken && r.Chance(1, 2) {
+					target[j] = r.PickInt([]int{defaultToken - 1, defaultToken, 70000})
+				}
+			case pc.kind == "uri":
+				target[j] = r.PickInt([]int{200, 4095, 4096, 5000, defaultToken - 10})
+			default:
+				target[j] = r.PickInt([]int{200, 4095, 4096, 5000, defaultToken, 70000})
+			}
+		}
+		limit := r.PickInt([]int{0, 0, 1, 2, 4, 7, 10})
+		passes := r.PickInt([]int{0, 2, 2, 3, 4})
+		cancel := "-"
+		if (limit == 0 && passes == 0) || r.Chance(1, 5) {
+			cancel = strconv.Itoa(r.Range(0, 3*n+2))
+		}
+		out = append(out, sizedLine(pc.kind, pc.preload, limit, passes, n, r.Range(1, 3), cancel, r.Intn(2), r.Intn(a08.FsKinds), mx, target))
 	}
 	return out
 }
